@@ -60,6 +60,13 @@ class SchemaDocGen:
         key = G_type_str(ty)
         name = "v%d" % (abs(hash(key)) % 5 + len(key) % 3)
         name = "v_" + "".join(c if c.isalnum() else "_" for c in key)[:20] + str(r.below(2))
+        if ty["k"] == "nn" and loc_has_default and r.chance(1, 2):
+            # a NULLABLE variable without default at a non-null location that has a default of its own (argument or input field):
+            # IsVariableUsageAllowed lets the location's default stand in.  A name of its own: it fits such locations only.
+            name = "vd" + name[1:]
+            if name not in self.vars:
+                self.vars[name] = G.vardef(name, ty["of"], None)
+            return G.v_var(name)
         if name not in self.vars:
             vt, default = ty, None
             if ty["k"] == "nn" and r.chance(1, 4):
@@ -340,7 +347,8 @@ OPERATORS = ["rename-field", "leaf-subselection", "composite-no-selection", "unk
              "inline-on-enum", "inline-on-input", "inline-on-scalar", "retarget-inline", "fragment-on-enum", "fragment-on-input",
              "unreached-self-cycle", "unreached-mutual-cycle", "fault-behind-unreached-cycle",
              "subscription-second-alias", "subscription-second-alias-inline", "subscription-second-alias-spread",
-             "nullable-var-in-defaulted-list", "dup-operation-other-kind", "second-op-fragment-variable", "inline-on-unimplemented-interface"]
+             "nullable-var-in-defaulted-list", "dup-operation-other-kind", "second-op-fragment-variable", "inline-on-unimplemented-interface",
+             "item-var-at-list"]
 
 
 def inject(doc, operator, site, disjoint_type="Lone", names=None):
@@ -552,6 +560,23 @@ def inject(doc, operator, site, disjoint_type="Lone", names=None):
         for o in ops:
             if not any(v["name"] == "nvl" for v in o["vars"]):
                 o["vars"].append(G.vardef("nvl", G.named(inner)))
+    elif operator == "item-var-at-list":
+        # a variable of the ITEM type where a list is expected: literals are coerced to a list of one, variables are not
+        sites = (names or {}).get("listArgSites") or []
+        cands = []
+        for s_, i_, where in sels:
+            f = s_[i_]
+            if f["k"] == "field":
+                for (fn, an, item) in sites:
+                    if f["name"] == fn:
+                        cands.append((f, an, item))
+        x = nth(cands)
+        if not x or not ops: return None
+        f, an, item = x
+        f["args"] = [a for a in f["args"] if a["name"] != an] + [G.arg(an, G.v_var("itv"))]
+        for o in ops:
+            if not any(v["name"] == "itv" for v in o["vars"]):
+                o["vars"].append(G.vardef("itv", copy.deepcopy(item)))
     elif operator in ("subscription-second-alias", "subscription-second-alias-inline", "subscription-second-alias-spread"):
         # the SAME root field once more under another response key: two entries in the collected field set
         x = nth([o for o in ops if o["opType"] == "subscription" and o["sel"] and o["sel"][0]["k"] == "field"])
